@@ -58,6 +58,11 @@ type c17In struct {
 	Size string `json:"size,omitempty"`
 	// site: consumer 0 proxy, 1 buffering proxy, 2 fastcgi (Limit, BodyLen, Chunked as above)
 	Consumer int `json:"consumer,omitempty"`
+	// site, chunked: Chunks = the sizes of the chunks on the wire (sum = BodyLen; empty = the default 7-way split);
+	// ChunkStyle 0 plain sizes, 1 a chunk extension on every size line, 2 upper-case hex with leading zeros and a
+	// quoted extension, 3 extensions + trailer fields after the last chunk (announced by a Trailer header)
+	Chunks     []int `json:"chunks,omitempty"`
+	ChunkStyle int   `json:"chunkstyle,omitempty"`
 	// listener: per site read, header, write, idle (set?, ns) and the header-size limit; Live = through
 	// a Casketfile (timeouts / limits directives) and casket.Start instead of hand-built configs
 	Sites [][9]int64 `json:"sites,omitempty"`
@@ -665,6 +670,60 @@ func c17GenDeep(r *Rand, tier string) []interface{} {
 			}
 		}
 	}
+	// ---- raw chunked uploads at limit-1, limit, limit+1 (and a bit more): the limit counts DECODED bytes whatever
+	// the segmentation on the wire — 1-byte chunks, one big chunk, a boundary chunk that straddles the limit, random
+	// sizes; with chunk extensions, upper-case/zero-padded sizes and trailer fields; three consumers ----
+	chunkLimits := []int64{1, 10, 4096}
+	if tier == "thorough" {
+		chunkLimits = []int64{1, 2, 10, 100, 4096, 5000, 32769, 65500, 70000}
+	}
+	for _, lim := range chunkLimits {
+		l := int(lim)
+		for consumer := 0; consumer < 3; consumer++ {
+			for _, n := range []int{l - 1, l, l + 1, l + r.Range(2, 600)} {
+				if n <= 0 {
+					continue
+				}
+				var splits [][]int
+				splits = append(splits, []int{n}) // one chunk
+				if n >= 2 {
+					splits = append(splits, []int{n - 1, 1}, []int{1, n - 1}) // the last / first byte alone
+				}
+				if n > l && l >= 1 {
+					splits = append(splits, []int{l, n - l}) // a chunk ending exactly at the limit
+					if l >= 2 {
+						splits = append(splits, []int{l - 1, n - l + 1}) // a chunk straddling the limit
+					}
+				}
+				if n <= 300 { // one-byte chunks
+					ones := make([]int, n)
+					for i := range ones {
+						ones[i] = 1
+					}
+					splits = append(splits, ones)
+				}
+				nr := 2
+				if tier == "thorough" {
+					nr = 6
+				}
+				for k := 0; k < nr; k++ { // random sizes
+					var sp []int
+					for left := n; left > 0; {
+						c := r.Range(1, 1+left/(1+r.Intn(4)))
+						if c > left {
+							c = left
+						}
+						sp = append(sp, c)
+						left -= c
+					}
+					splits = append(splits, sp)
+				}
+				for si, sp := range splits {
+					out = append(out, &c17In{Kind: "site", Consumer: consumer, Chunked: true, Limit: lim, BodyLen: n, Chunks: sp, ChunkStyle: (si + consumer + n) % 4})
+				}
+			}
+		}
+	}
 	// ---- every server object of a listener: TLS sites or not, HTTP/2 on/off, QUIC flag on/off ----
 	nServers, nServersLive := 260, 24
 	if tier == "thorough" {
@@ -1035,21 +1094,55 @@ func c17RunSite(in *c17In) Result {
 	var sb bytes.Buffer
 	fmt.Fprintf(&sb, "POST %s HTTP/1.1\r\nHost: %s\r\nX-Case: %s\r\nContent-Type: application/octet-stream\r\n", target, site.addr, id)
 	if in.Chunked {
-		sb.WriteString("Transfer-Encoding: chunked\r\n\r\n")
-		step := 1 + in.BodyLen/7
-		if step > 8000 {
-			step = 8000
+		if in.ChunkStyle == 3 {
+			sb.WriteString("Trailer: X-Sum, X-Note\r\n")
 		}
-		for i := 0; i < len(body); i += step {
-			j := i + step
-			if j > len(body) {
-				j = len(body)
+		sb.WriteString("Transfer-Encoding: chunked\r\n\r\n")
+		sizes := in.Chunks
+		if len(sizes) == 0 {
+			step := 1 + in.BodyLen/7
+			if step > 8000 {
+				step = 8000
 			}
-			fmt.Fprintf(&sb, "%x\r\n", j-i)
-			sb.Write(body[i:j])
+			for i := 0; i < len(body); i += step {
+				if i+step > len(body) {
+					sizes = append(sizes, len(body)-i)
+				} else {
+					sizes = append(sizes, step)
+				}
+			}
+		}
+		sizeLine := func(n, k int) string {
+			switch in.ChunkStyle {
+			case 1:
+				return fmt.Sprintf("%x;seq=%d", n, k)
+			case 2:
+				return fmt.Sprintf("00%X;note=\"a;b=c\"", n)
+			case 3:
+				return fmt.Sprintf("%x;x", n)
+			}
+			return fmt.Sprintf("%x", n)
+		}
+		i := 0
+		for k, n := range sizes {
+			if n <= 0 || i+n > len(body) {
+				continue
+			}
+			sb.WriteString(sizeLine(n, k) + "\r\n")
+			sb.Write(body[i : i+n])
+			sb.WriteString("\r\n")
+			i += n
+		}
+		if i < len(body) { // (a replay file whose sizes do not add up: the rest as one chunk)
+			fmt.Fprintf(&sb, "%x\r\n", len(body)-i)
+			sb.Write(body[i:])
 			sb.WriteString("\r\n")
 		}
-		sb.WriteString("0\r\n\r\n")
+		sb.WriteString(sizeLine(0, len(sizes)) + "\r\n")
+		if in.ChunkStyle == 3 {
+			fmt.Fprintf(&sb, "X-Sum: %d\r\nX-Note: after the last chunk\r\n", len(body))
+		}
+		sb.WriteString("\r\n")
 	} else {
 		fmt.Fprintf(&sb, "Content-Length: %d\r\n\r\n", len(body))
 		sb.Write(body)
@@ -1129,6 +1222,9 @@ func c17RunSite(in *c17In) Result {
 	ow := "within"
 	if over {
 		ow = "over"
+	}
+	if in.Chunked && (len(in.Chunks) > 0 || in.ChunkStyle != 0) {
+		framing = fmt.Sprintf("chunked-varied-style%d", in.ChunkStyle)
 	}
 	sig := fmt.Sprintf("site:%s:%s:%s", kind, framing, ow)
 	// precise classes for the deviations once found on real sites (F-C17-4/5/6): the body is cut
